@@ -445,6 +445,9 @@ func applyWrapBases(rng *rand.Rand, sc *sim.Scenario) {
 	sc.Knobs.PacketIDBase = uint32(pick(rng, 65535, 65534, 65530, 65500, 65281, 0, 1, rng.IntN(65536)))
 	sc.Knobs.SetEchoIDBase = true
 	sc.Knobs.EchoIDBase = pick(rng, uint32(65534), 65535, 0, 0xffffffff, 0xfffffffe, uint32(rng.IntN(65536)), 255, 256)
+	// TCP SYN sequence numbers at and around the 32-bit wrap (seq+1 = 0), the sign change and anywhere
+	sc.Knobs.SetTCPSeq = true
+	sc.Knobs.TCPSeqBase = pick(rng, uint32(0xffffffff), 0xffffffff, 0xfffffffe, 0, 1, 0x7fffffff, 0x80000000, rng.Uint32(), rng.Uint32())
 }
 
 func shapeOf(sc *sim.Scenario) string {
